@@ -1,10 +1,11 @@
 """C16 — configuration of tools/check.py and text of the MANIFEST entry."""
 
 PROP = {
-    "targets": ["Props/C16.vo", "Corr/CorrC16.vo"],
-    "cone": ["Ty/TyProofs.v"],
+    "targets": ["Props/C16.vo", "Corr/CorrC16.vo", "Bridge/BrC0809.vo"],
+    "cone": ["Ty/TyProofs.v", "Bridge/BrC0809.v"],
     "harness": "c16",
-    "trusted": ["hand model coq/Ty/TypesTable.v of conf/types_table.go, checker/types.go (fieldType, methodType), the four member cases of checker/checker.go, vm/runtime.go (fetch, FetchFn) and the name set of docgen.CreateDoc - tied to the source by the executed correspondence on every run",
+    "trusted": ["purity premise of the functional model (no state survives a Compile / Run call): Bridge/BrC0809.v over the regenerated write / call / package-variable inventory - a cache or other package-level state breaks it",
+                "hand model coq/Ty/TypesTable.v of conf/types_table.go, checker/types.go (fieldType, methodType), the four member cases of checker/checker.go, vm/runtime.go (fetch, FetchFn) and the name set of docgen.CreateDoc - tied to the source by the executed correspondence on every run",
                 "reference rule go_resolve (coq/Ty/Types.v), written from the Go specification and compared with reflect.Type.FieldByName / MethodByName on every run",
                 "harness/ser_types.go (reflect.Type -> Coq ty / tenv)"],
     "assumptions": ["method sets are the ones reflect reports (promotion is not recomputed)",
